@@ -12,8 +12,10 @@ FAULTS = "vxcds"  # deliver, drop, corrupt, duplicate, stall (the sender's timer
 
 
 class World:
-    def __init__(self, window, rng):
+    def __init__(self, window, rng, reactive=0.0):
         import bellows.ash as ash
+
+        self.reactive = reactive
 
         self.ash = ash
         self.rng = rng
@@ -36,6 +38,13 @@ class World:
         class Up:
             def data_received(self, data):
                 world.host_up.append(bytes(data))
+                # an upper layer that answers what it receives: a new send issued from inside the up-call, or by whatever the
+                # up-call woke (it runs in the next loop iteration, next to the sender task the same read completed)
+                if world.reactive and world.rng.random() < world.reactive:
+                    if world.rng.random() < 0.5:
+                        world._reactive_submit()
+                    else:
+                        world.loop.call_soon(world._reactive_submit)
 
             def reset_received(self, code):
                 world.resets.append(int(code))
@@ -81,6 +90,13 @@ class World:
         self.host_sub.append((payload, t))
         self.loop.settle()
         self.labels.append("hs")
+
+    def _reactive_submit(self):
+        self.npay += 1
+        payload = bytes([0xA0, self.npay & 0xFF, self.npay >> 8, self.rng.getrandbits(8)])
+        t = self.loop.create_task(self._caller(payload))
+        self.host_sub.append((payload, t))
+        self.labels.append("hr")
 
     def ncp_submit(self):
         self.npay += 1
@@ -136,6 +152,8 @@ class World:
         w = ch.pop(0)
         if fault == "x":
             return True
+        if fault == "j" and ch:  # two frames arrive in one read
+            w = w + ch.pop(0)
         copies = [w, w] if fault == "d" else [self._corrupt(self.rng, w) if fault == "c" else w]
         if fault == "l":  # duplicate whose copy is held back by the line for the next 2..4 frames of that direction
             self.late.append([direction, self.rng.randint(2, 4), w])
@@ -214,7 +232,7 @@ def oracle(w):
 def scenario(rng, window, plan, nh, nn, extra, focus="mix"):
     """plan: fault letters applied to the first wire frames (alternating pick of the non-empty channel,
     host->NCP first); extra: random tail of labels"""
-    w = World(window, rng)
+    w = World(window, rng, reactive=0.6 if focus == "react" else 0.0)
     try:
         for _ in range(nh):
             w.host_submit()
@@ -254,7 +272,7 @@ def scenario(rng, window, plan, nh, nn, extra, focus="mix"):
                 w.ncp_timeout()
             else:
                 d = "h2n" if (w.h2n and (not w.n2h or rng.random() < 0.5)) else "n2h"
-                w.deliver(d, rng.choice("vvvvvvxcdsll" if focus == "late" else "vvvvvvxcds"))
+                w.deliver(d, rng.choice("vvvvvvxcdsll" if focus == "late" else "vvvvjjjjxcs" if focus == "react" else "vvvvvvxcds"))
         w.quiesce()
         failed_link = w.p._ncp_state != w.ash.NcpState.CONNECTED
         return w, oracle(w), failed_link
@@ -277,6 +295,9 @@ def cases(ctx):
         cs.append((1, "".join(plan), 3, 0, 0, "h2n"))
     for _ in range(ctx.n(400, 6000)):
         cs.append((rng.choice([1, 2, 3]), "", rng.randint(0, 3), rng.randint(0, 3), rng.randint(20, 120), "mix"))
+    # an upper layer that sends in reaction to what it receives, and reads that carry two frames (an ACK and a DATA frame together)
+    for _ in range(ctx.n(600, 6000)):
+        cs.append((rng.choice([1, 2, 3]), "", rng.randint(2, 4), rng.randint(1, 3), rng.randint(20, 80), "react"))
     # beyond the FIFO channels of the theorem (oracle only): a duplicate whose copy arrives 2..4 frames late
     for _ in range(ctx.n(400, 6000)):
         cs.append((rng.choice([1, 2, 3]), "", rng.randint(0, 3), rng.randint(0, 3), rng.randint(20, 120), "late"))
